@@ -124,6 +124,21 @@ class LineHooks(Hooks):
             self._all_refkeys = ks
         return ks
 
+    def _is_backing_field(self, cls, attr):
+        """does class `cls` have a property `attr[1:]` whose getter is
+        `return self.<attr>`"""
+        import ast as _a
+        f = cls.find_method(attr[1:]) if hasattr(cls, "find_method") else None
+        if f is None or getattr(f, "kind", None) != "property":
+            return False
+        body = [st for st in f.node.body if not (
+            isinstance(st, _a.Expr) and isinstance(st.value, _a.Constant))]
+        return len(body) == 1 and isinstance(body[0], _a.Return) and \
+            isinstance(body[0].value, _a.Attribute) and \
+            body[0].value.attr == attr and \
+            isinstance(body[0].value.value, _a.Name) and \
+            body[0].value.value.id == f.self_name
+
     def init_default(self, cls, attr):
         """(True, value) when the __init__ of the class gives the instance
         attribute `attr` a constant / empty-container initial value that does
@@ -184,6 +199,12 @@ class LineHooks(Hooks):
                 base.cls is not None and hasattr(base.cls, "mro"):
             if attr == "__dict__":
                 return base.attrs
+            if attr.startswith("_") and not attr.startswith("__") and \
+                    attr[1:] in base.attrs and \
+                    self._is_backing_field(base.cls, attr):
+                # the rule declared the property (gfa.vlevel), the code reads
+                # the attribute behind it (gfa._vlevel)
+                return base.attrs[attr[1:]]
             if attr == "_gfa" and self.repo.cls("Line") in base.cls.mro:
                 # a line the rule did not place in a Gfa is not connected
                 # (Line.__init__ sets _gfa = None)
